@@ -419,6 +419,16 @@ func c13(tier string, args []string) int {
 						r.Violation("C13/ceremony-broken/"+key, fmt.Sprintf("n=%d t=%d node %d, %s: the ceremony could not be driven on: %v", cf.n, cf.t, cf.v, label, err), trace)
 						continue
 					}
+					if !got.Signed && len(crashes) > 1 {
+						// several crashes in one run: if one of them alone is a recorded finding,
+						// the outcome is attributed to it
+						for _, c1 := range crashes {
+							k1 := "C13/outcome-differs/" + crashClass([]string{c1})
+							if r.IsKnown(k1) {
+								key = crashClass([]string{c1})
+							}
+						}
+					}
 					if !got.Signed {
 						r.Violation("C13/outcome-differs/"+key, fmt.Sprintf("n=%d t=%d node %d, %s: after restart the ceremony does not reach the outcome of the uninterrupted run (%s; states %v)", cf.n, cf.t, cf.v, label, got.Detail, got.States), trace)
 					}
